@@ -27,6 +27,9 @@ type concCase struct {
 	// Interleave: replay the two critical sections of ProxyUpdate (lookup; Proxy.Update) with a complete
 	// ProxyDelete in between, through the public methods the handlers call - the schedule of finding F9
 	Interleave string `json:"interleave"`
+	// Upstreams: addresses on which the harness runs servers that accept, echo one read and close (so that connections
+	// through a proxy really get linked: the accept loop dials, registers and starts the links)
+	Upstreams []string `json:"upstreams"`
 }
 
 type concReq struct {
@@ -50,6 +53,29 @@ func runConcCase(c concCase) []concRound {
 		rounds = 1
 	}
 	var out []concRound
+	for _, a := range c.Upstreams {
+		ln, err := net.Listen("tcp", a)
+		if err != nil {
+			continue
+		}
+		defer ln.Close()
+		go func() {
+			for {
+				conn, err := ln.Accept()
+				if err != nil {
+					return
+				}
+				go func() {
+					buf := make([]byte, 64)
+					conn.SetDeadline(time.Now().Add(200 * time.Millisecond))
+					if n, err := conn.Read(buf); err == nil {
+						conn.Write(buf[:n])
+					}
+					conn.Close()
+				}()
+			}
+		}()
+	}
 	for r := 0; r < rounds; r++ {
 		server := toxiproxy.NewServer(toxiproxy.NewMetricsContainer(nil), zerolog.Nop())
 		h := server.Routes()
